@@ -1,7 +1,7 @@
 (* C07 - runtime assertions pass only when the asserted relation really holds.
    The condition of every assertion is REGENERATED from pedal/assertions/runtime.py on every run.
-   PARTIAL: equality_test (tolerance, normalisation, containers), the wrapping combinations and unit_test are tied
-   by the operand-matrix correspondence run only. *)
+   equality_test (tolerance, normalisation, containers) is modelled in Coq too (end of this file).
+   PARTIAL: the wrapping combinations and unit_test are tied by the operand-matrix correspondence run only. *)
 From Coq Require Import List String Bool.
 Import ListNotations.
 From Pedal Require Import model.C07_Assert gen.C07_Gen proof.C07_Lemmas.
@@ -38,7 +38,7 @@ Print Assumptions C07_error_or_unevaluable_fails.
 (* equality: independent of the order of the operands.  Model of pedal/utilities/comparisons.py equality_test
    (model/C07_Equality.v), tied to the implementation by the correspondence run on every ordered pair of the operand universe;
    proved for values of any size and nesting built from scalars, lists, tuples, sets and frozensets. *)
-From Coq Require Import QArith.
+From Coq Require Import QArith Qabs.
 From Pedal Require Import model.C07_Equality proof.C07_Equality_Lemmas.
 
 Theorem C07_equality_is_order_independent :
@@ -55,3 +55,20 @@ Theorem C07_one_way_set_comparison_refuted :
   exists x y, sets_eq_one_way (sc_eq false (1 # 1000)) x y = true /\ sets_eq_one_way (sc_eq false (1 # 1000)) y x = false.
 Proof. exact one_way_set_comparison_refuted. Qed.
 Print Assumptions C07_one_way_set_comparison_refuted.
+
+(* the tolerance: two floats are equal exactly when they differ by less than delta; a larger tolerance never rejects what a
+   smaller one accepts; every NaN-free value equals itself *)
+Theorem C07_float_tolerance_spec :
+  forall exact delta x y, sc_eq exact delta (SFloat x) (SFloat y) = negb (Qle_bool delta (Qabs (y - x))).
+Proof. exact float_tolerance_spec. Qed.
+Print Assumptions C07_float_tolerance_spec.
+
+Theorem C07_equality_monotone_in_the_tolerance :
+  forall exact d d' a e, d <= d' -> dfree a = true -> equality_test exact d a e = true -> equality_test exact d' a e = true.
+Proof. exact equality_monotone_in_the_tolerance. Qed.
+Print Assumptions C07_equality_monotone_in_the_tolerance.
+
+Theorem C07_equality_reflexive :
+  forall exact delta a, 0 < delta -> dfree a = true -> nan_free a = true -> equality_test exact delta a a = true.
+Proof. exact equality_reflexive. Qed.
+Print Assumptions C07_equality_reflexive.
